@@ -42,7 +42,7 @@ SEED_LINES = [
     "for x in $A {1..2} ; do vpa $x ; done", "vpa a <<< 'b' < f", "vpa a > f >> g 2> h 2>&1 1>&2",
     # numeric bounds next to the limits of the machine types
     "vpa {2147483646..2147483647}", "vpa {1..2147483647..2147483647}", "vpa {-2147483647..-2147483648}", "vpa {2147483647..2147483646..2147483647}",
-    "vpa {0..2147483648}x", "vpa {-2147483649..0}", "vpa {1..3..2147483648}", "ulimit -n 99999999999999999999", "fg 2147483648", "bg -1", "history -n 99999999999",
+    "vpa {0..2147483648}x", "vpa {-2147483649..0}", "vpa {1..3..2147483648}", "(0 - 9223372036854775807 - 1) / (0 - 1)", "-9223372036854775808 / -1", "2 ^ 63 / -1", "ulimit -n 99999999999999999999", "fg 2147483648", "bg -1", "history -n 99999999999",
     "exit 99999999999999999999x", "cd -99", "vpa ${", "vpa ${A", "vpa \"a${A b\"", "vpa ${?", "vpa $A${", "vpa ${}${A}",
 ]
 
